@@ -40,3 +40,41 @@ register(Contract(
     raises=[Raises("BadPluginError"), Raises("BadTokenizationError")],
     modifies=["*"],
 ))
+
+# ---------------------------------------------------------------------------------------------------------
+# C14: life-cycle at engine level.  Ghost `calls`: one event per dispatcher call made by FileScanHelper,
+# recorded by call-site instrumentation (ghost only).  PluginManager's own contracts (plugin_engine.py) turn
+# each dispatcher call into one event per enabled rule, in list order.
+CALLS = {"calls": "List[Any]"}
+CKEEP = "forall(lambda j: calls[j] == old(calls)[j], 0, old(len(calls)))"
+SP_LINES = "source_provider._FileSourceProvider__read_lines"
+SP_INDEX = "source_provider._FileSourceProvider__read_index"
+SCAN_CTX = ("context.current_fix_line is None and not context.in_fix_mode and context._PluginScanContext__fix_token_map is None "
+            "and context._PluginScanContext__replace_token_list is None")
+
+register(Contract(
+    key=FSH + "__process_lines_in_file", properties=["C14", "C07", "C15"],
+    ghost=CALLS,
+    requires=[f"{SP_INDEX} == 0", f"implies(not context_map, {SCAN_CTX})", f"{SP_LINES} is not calls"],
+    calls={
+        "self.__plugins.next_line": (PM + "next_line", ["calls.append(('line', context, line_number, line, is_last_line_in_file))"]),
+        "self.__plugins.completed_file": (PM + "completed_file", ["calls.append(('done', context, line_number))"]),
+    },
+    ensures=[f"implies(old(not context_map), len(calls) == old(len(calls)) + len({SP_LINES}) + 1)",
+             f"implies(old(not context_map), forall(lambda k: calls[old(len(calls)) + k] == ('line', context, k + 1, {SP_LINES}[k], k + 1 >= len({SP_LINES})), 0, len({SP_LINES})))",
+             f"implies(old(not context_map), calls[old(len(calls)) + len({SP_LINES})] == ('done', context, len({SP_LINES}) + 1))",
+             f"implies(old(not context_map), {CKEEP})"],
+    raises=[Raises("BadPluginError"), Raises("OSError", when="context_map or context.in_fix_mode"),
+            Raises("AssertionError", when="context_map or context.in_fix_mode")],
+    modifies=["*"],
+    loops={0: Loop(invariant=[
+        f"line_number >= 1", f"{SP_INDEX} >= 0",
+        f"implies(next_line is not None, {SP_INDEX} == line_number and line_number <= len({SP_LINES}) and next_line is {SP_LINES}[line_number - 1])",
+        f"implies(next_line is None, line_number == len({SP_LINES}) + 1)",
+        f"len({SP_LINES}) == old(len({SP_LINES}))", f"forall(lambda k: {SP_LINES}[k] is old({SP_LINES})[k], 0, len({SP_LINES}))",
+        f"implies(old(not context_map), not context_map and {SCAN_CTX})",
+        f"implies(old(not context_map), len(calls) == old(len(calls)) + line_number - 1)",
+        f"implies(old(not context_map), forall(lambda k: calls[old(len(calls)) + k] == ('line', context, k + 1, {SP_LINES}[k], k + 1 >= len({SP_LINES})), 0, line_number - 1))",
+        f"implies(old(not context_map), {CKEEP})",
+    ], variant=f"len({SP_LINES}) + 1 - line_number")},
+))
